@@ -5,6 +5,10 @@ rows = []
 for d in sorted(glob.glob("/verif/seeded/*/meta.json")):
     m = json.load(open(d))
     sid = os.path.basename(os.path.dirname(d))
+    if os.environ.get("SEED_FILTER") and not sid.startswith(os.environ["SEED_FILTER"]):
+        continue
+    if not os.environ.get("SEED_FILTER") and sid.startswith("r2-"):
+        continue
     oc = m.get("our_check", {})
     first, last = oc.get("first_run") or {}, oc.get("latest_run") or {}
     def fmt(r):
